@@ -1,4 +1,4 @@
-package main
+package eng
 
 import (
 	"flag"
@@ -8,12 +8,10 @@ import (
 	"strconv"
 	"strings"
 	"time"
-
-	_ "verif/h/checks"
-	"verif/h/eng"
 )
 
-func main() {
+// Main is the body of every group binary (cmd/h-<group>).
+func Main() {
 	worker := flag.String("worker", "", "i/n (internal)")
 	tier := flag.String("tier", "", "quick|thorough")
 	deadline := flag.Int64("deadline", 0, "internal")
@@ -24,8 +22,7 @@ func main() {
 		fmt.Fprintln(os.Stderr, "usage: h [--tier quick|thorough] <id> | h replay <path> | h list")
 		os.Exit(2)
 	}
-	// allow flags after the id
-	if len(args) >= 3 && args[1] == "--tier" {
+	if len(args) >= 3 && args[1] == "--tier" { // flags after the id
 		*tier = args[2]
 	}
 	if *tier == "" {
@@ -37,18 +34,18 @@ func main() {
 	switch args[0] {
 	case "list":
 		var ids []string
-		for id := range eng.Registry {
+		for id := range Registry {
 			ids = append(ids, id)
 		}
 		sort.Strings(ids)
 		fmt.Println(strings.Join(ids, "\n"))
 		return
 	case "replay":
-		os.Exit(eng.Replay(args[1]))
+		os.Exit(Replay(args[1]))
 	}
-	c := eng.Registry[args[0]]
+	c := Registry[args[0]]
 	if c == nil {
-		if f := eng.Internal[args[0]]; f != nil {
+		if f := Internal[args[0]]; f != nil {
 			f(args[1:])
 			return
 		}
@@ -59,8 +56,8 @@ func main() {
 		p := strings.Split(*worker, "/")
 		i, _ := strconv.Atoi(p[0])
 		n, _ := strconv.Atoi(p[1])
-		eng.RunWorker(c, *tier, i, n, *seed, time.Unix(0, *deadline))
+		RunWorker(c, *tier, i, n, *seed, time.Unix(0, *deadline))
 		return
 	}
-	os.Exit(eng.RunParent(c, *tier))
+	os.Exit(RunParent(c, *tier))
 }
